@@ -37,7 +37,7 @@ DEFAULT_ZONE = {"PVL": 0, "ODL": None, "PDS3": 0, "ISIS": 0, "Omni": 0}
 LEAP_TEXT = ("PVL", "ISIS", "Omni")        # a seconds value of 60 is kept as text
 OFFSETS_READ = ("ODL", "Omni")             # an ODL zone offset gives that fixed offset
 ENCODERS = ("PVLEncoder", "ODLEncoder", "PDSLabelEncoder", "ISISEncoder")
-ZSTYLES = ("HH", "H", "HH:MM", "H:MM", "HHMM")
+ZSTYLES = ("HH", "H", "HH:MM", "H:MM", "HHMM", "HMM")
 
 BOUNDARY_YEARS = (1, 2, 3, 4, 5, 9, 10, 99, 100, 101, 400, 999, 1000, 1001, 1582, 1600, 1700, 1899, 1900,
                   1901, 1969, 1970, 1999, 2000, 2001, 2004, 2010, 2038, 2100, 2400, 9996, 9998, 9999)
@@ -151,6 +151,8 @@ def render(spec):
             out += f"{zh}:{zm:02d}"
         elif zs == "HHMM":
             out += f"{zh:02d}{zm:02d}"
+        elif zs == "HMM":
+            out += f"{zh}{zm:02d}"
         else:
             raise AssertionError(f"driver bug: zone spelling {zs!r}")
     return out
@@ -261,9 +263,9 @@ def expect_cls(cfg, spec):
         if cfg not in OFFSETS_READ:
             return rej, pre + "offset" + leap_sfx            # PDS3 rejects offsets; PVL has none: not a date/time
         zone = (z[2] * 60 + (z[3] or 0)) * (-1 if z[1] == "-" else 1)
-        if z[4] == "HHMM" or z[2] > 12 or (z[2] == 12 and z[3]):
+        if z[4] in ("HHMM", "HMM") or z[2] > 12 or (z[2] == 12 and z[3]):
             lenient = True                                   # spelling / range the ODL syntax does not list
-            zl = "-offset-HHMM" if z[4] == "HHMM" else "-offset>12h"
+            zl = "-offset-HHMM" if z[4] in ("HHMM", "HMM") else "-offset>12h"
     elif zst == "Z":
         zone = 0
     else:
@@ -393,7 +395,9 @@ class Acc:
         if key in self.viol:
             return
         got = repr(out[1]) if out[0] == "ok" else f"{out[0]}({out[1]!r})"
-        self.viol[key] = (f"{DEC_LABEL[cfg]}.{api}({text!r}) -> {got}; expected {describe(e)}",
+        call = (f"pvl.loads('T = ' + {text!r}" + (")" if cfg == "Omni" else f", parser=<strict {cfg} parser>)") + "['T']"
+                if api == "loads" else f"{DEC_LABEL[cfg]}.{api}({text!r})")
+        self.viol[key] = (f"{call} -> {got}; expected {describe(e)}",
                           {"kind": "decode", "config": cfg, "api": api, "text": text, "spec": list(spec)})
 
     def result(self):
@@ -464,15 +468,20 @@ def task_dates(arg):
     warnings.simplefilter("ignore")
     acc = Acc()
     ntexts = 0
-    fns = [(cfg, api, getattr(decoder_for(cfg), api)) for cfg in CONFIGS for api in APIS]
+    fns_both = [(cfg, api, getattr(decoder_for(cfg), api)) for cfg in CONFIGS for api in APIS]
+    fns_dt = [f for f in fns_both if f[1] == "decode_datetime"]
     date_t = _dt.date
     for y in years:
+        # decode_datetime sees every text; decode_simple_value (the same code behind the numeric trials of the
+        # cascade) sees every text of the boundary years and of every 10th year, and the leap-dependent edges of all years
+        both = mode != "all" or y % 10 == 0 or y in BOUNDARY_YEARS
+        edges = () if both else set(gen_year_edges(y))
         for spec in (gen_year_days(y) if mode == "all" else gen_year_edges(y)):
             text = render(spec)
             ntexts += 1
             e0 = expect("PVL", spec)         # date-only expectations do not depend on the dialect
             fast = e0[0] == "date"
-            for cfg, api, fn in fns:
+            for cfg, api, fn in (fns_both if (both or spec in edges) else fns_dt):
                 acc.n += 1
                 if fast:
                     try:
@@ -509,14 +518,14 @@ def gen_times(thorough, part, nparts):
     i = 0
     for h in hours:
         for mi in minutes:
-            i += 1
-            if i % nparts != part:
-                continue
             if thorough:
                 boundary = h in (0, 1, 12, 23, 24) and mi in (0, 1, 59, 60)
             else:
                 boundary = h in (0, 23, 24) and mi in (0, 59, 60)
             for s in (seconds if boundary else few_seconds):
+                i += 1
+                if i % nparts != part:
+                    continue
                 if s is None:
                     fracs = (None,)
                 elif boundary and s in (0, 1, 59, 60, 61):
@@ -529,7 +538,8 @@ def gen_times(thorough, part, nparts):
                     for z in ("", "Z"):
                         for d in (DATE_PREFIXES if boundary else DATE_PREFIXES[:3]):
                             yield (d, (h, mi, s, frac), z, "")
-            if thorough and not boundary:
+            i += 1
+            if thorough and not boundary and i % nparts == part:
                 for s in range(2, 58):            # every second of every minute of every hour, plain HH:MM:SS
                     if s not in (29, 30):
                         yield (None, (h, mi, s, None), "", "")
@@ -587,7 +597,7 @@ def gen_offsets(step):
             for zs in ZSTYLES:
                 if zs in ("HH", "H") and zm:
                     continue
-                if zs in ("H", "H:MM") and zh > 9:
+                if zs in ("H", "H:MM", "HMM") and zh > 9:
                     continue
                 for d, t in OFFSET_BASES:
                     yield (d, t, (False, sign, zh, zm if zs not in ("HH", "H") else None, zs), "")
@@ -618,9 +628,14 @@ def gen_leap(years, grid=True):
                 yield (d, (23, 59, 60, None), "Z", "")
     if not grid:
         return
+    k, n = (0, 1) if grid is True else grid
+    i = 0
     for h in (0, 1, 9, 10, 19, 20, 23, 24):
         for mi in (0, 9, 10, 59, 60):
             for frac in (None, "0", "5", "001", "999999", "1234567"):
+                i += 1
+                if i % n != k:
+                    continue
                 for z in ("", "Z"):
                     for d in (None, ("ymd", 2001, 12, 31), ("yj", 2001, 365), ("ymd", 1999, 9, 9)):
                         yield (d, (h, mi, 60, frac), z, "")
@@ -876,6 +891,11 @@ def task_encode_datetimes(arg):
     return run_encode(gen_encode_datetimes(*arg))
 
 
+def dispatch(task):
+    name, arg = task
+    return globals()[name](arg)
+
+
 # --------------------------------------------------------------------------------------------
 # sections
 # --------------------------------------------------------------------------------------------
@@ -924,8 +944,9 @@ def sections(ctx):
         s = Section("decode-dates", "bounded", bounded=True,
                     rule="every day of the listed years as YYYY-MM-DD and YYYY-DDD, plus the invalid neighbours of each "
                          "field (month 00/13, day 00 and every day past the month's end up to 32, day-of-year 000, "
-                         "one past the year's end, 367, 399), x 5 decoder configurations x {decode_datetime, "
-                         "decode_simple_value}; expected date built from the written fields; distinct = "
+                         "one past the year's end, 367, 399), x 5 decoder configurations x decode_datetime, and x decode_simple_value "
+                         "for the boundary years, every 10th year and the ten leap-dependent edges of every year; "
+                         "expected date built from the written fields; distinct = "
                          "(configuration, text)" + ("" if th else "; plus the ten leap-dependent edges of every year 0001-9999"),
                     bounds={"years": ("0001-9999 (all)" if ystep == 1 else f"every {ystep}th year of 0001-9999 and the boundary years")
                             if th else list(BOUNDARY_YEARS), "configs": list(CONFIGS)})
@@ -941,10 +962,12 @@ def sections(ctx):
         # (a2) times ------------------------------------------------------------------------
         t0 = _time.time()
         s = Section("decode-times", "bounded", bounded=True,
-                    rule="hour x minute x second (absent, 0..61) x fraction digit strings (1..8 digits incl. the microsecond "
-                         "values 0,1,999,1000,500000,999999) x {no marker, Z} x {time alone, after T with calendar and "
-                         "day-of-year dates incl. leap day, day 366, invalid day 366 / Feb 29}; expected time/datetime and zone "
-                         "from the written fields, ValueError for any out-of-range field",
+                    rule="boundary hours x boundary minutes: every listed second x 20 fraction digit strings (1..8 digits incl. "
+                         "the microsecond values 0,1,999,1000,500000,999999) x {no marker, Z} x {time alone, after T with 8 "
+                         "calendar / day-of-year dates incl. leap day, day 366, invalid day 366 and Feb 29}; every other listed "
+                         "hour x minute: seconds absent/0/1/29/30/58/59/60/61 x {no fraction, .5" + ("" if th else ", .001, .000001")
+                         + "} x {no marker, Z} x {alone, both date forms}" + (", and every second 00..59 as plain HH:MM:SS" if th else "")
+                         + "; expected time/datetime and zone from the written fields, ValueError for any out-of-range field",
                     bounds={"hours": "0-25" if th else [0, 1, 9, 10, 12, 23, 24, 25], "minutes": "0-61" if th else [0, 1, 9, 10, 59, 60, 61],
                             "seconds": "absent,0-62" if th else ["absent", 0, 1, 9, 10, 59, 60, 61], "fractions": list(FRACS_Q)})
         s.distinct = Counted()
@@ -970,7 +993,7 @@ def sections(ctx):
         t0 = _time.time()
         step = 15 if th else 30
         s = Section("decode-offsets", "bounded", bounded=True,
-                    rule=f"every offset 00:00..12:00 in {step}-minute steps x sign x spelling (HH, H, HH:MM, H:MM, HHMM) after "
+                    rule=f"every offset 00:00..12:00 in {step}-minute steps x sign x spelling (HH, H, HH:MM, H:MM, HHMM, HMM) after "
                          "9 time / date-time texts, after a leap-second text, after a bare date, and after a Z; plus offsets "
                          "beyond 12 h and minute 60: ODL and the default loader give that fixed offset, PDS3 rejects, PVL/ISIS "
                          "do not read a date/time",
@@ -989,7 +1012,7 @@ def sections(ctx):
                          "identical str, ODL and PDS3 raise ValueError; an invalid date or field is rejected everywhere",
                     bounds={"years": ("0001-9999 (all)" if ystep == 1 else f"every {ystep}th year") if th else ly})
         s.distinct = Counted()
-        merge(s, pool.map(task_leap, [(c, i == 0) for i, c in enumerate(chunks(ly, J * 2))], chunksize=1))
+        merge(s, pool.map(task_leap, [([], (k, J)) for k in range(J)] + [(c, False) for c in chunks(ly, J * 2)], chunksize=1))
         s.seconds = _time.time() - t0
         out.append(s)
 
@@ -1018,12 +1041,13 @@ def sections(ctx):
                          "to the same type, fields and instant (a naive value may come back as UTC)",
                     bounds={"years": ("0001-9999 (all)" if ystep == 1 else f"every {ystep}th year") if th else list(BOUNDARY_YEARS), "micros": list(MICROS)})
         s.distinct = Counted()
-        res = pool.map(task_encode_dates, chunks(years, J * 4 if th else J), chunksize=1)
         np_ = J * 4
-        res += pool.map(task_encode_times, [(th, p, np_) for p in range(np_)], chunksize=1)
-        res += pool.map(task_encode_micro, [(c, 10 if th else 1) for c in chunks(mv, J * 2)], chunksize=1)
-        res += pool.map(task_encode_datetimes, [(c, th) for c in chunks(years if not th else
-                                                 sorted(set(BOUNDARY_YEARS) | set(range(1, 10000, 97))), J * 2)], chunksize=1)
+        tasks = [("task_encode_datetimes", (c, th)) for c in chunks(years if not th else
+                                                                     sorted(set(BOUNDARY_YEARS) | set(range(1, 10000, 97))), J * 4)]
+        tasks += [("task_encode_times", (th, p, np_)) for p in range(np_)]
+        tasks += [("task_encode_micro", (c, 10 if th else 1)) for c in chunks(mv, J * 2)]
+        tasks += [("task_encode_dates", c) for c in chunks(years, J * 4 if th else J)]
+        res = pool.map(dispatch, tasks, chunksize=1)
         merge(s, res)
         s.notes.append(f"refused by the encoder: {sum(r['refused'] for r in res)} of {s.evaluations}")
         s.samples = [{"encoder": "ODLEncoder", "value": {"type": "time", "f": [1, 2, 3, 5000], "off": -19800}},
@@ -1076,9 +1100,7 @@ def spec_from_text(text):
         elif g["zc"]:
             zs = "HH:MM" if len(g["zh"]) == 2 else "H:MM"
         else:
-            zs = "HHMM"
-            if len(g["zh"]) != 2:
-                return None
+            zs = "HHMM" if len(g["zh"]) == 2 else "HMM"
         z = (bool(g["Z"]), g["sg"], zh, None if zm is None else int(zm), zs)
     spec = (d, t, z, "unpadded" if unp else "")
     return spec if render(spec) == text else None
@@ -1106,7 +1128,9 @@ def replay_decode(cfg, api, text, spec=None):
     if not kind:
         return None
     got = repr(out[1]) if out[0] == "ok" else f"{out[0]}({out[1]!r})"
-    return f"{DEC_LABEL[cfg]}.{api}({text!r}) -> {got}; expected {describe(e)} [{kind}]"
+    call = (f"pvl.loads('T = ' + {text!r}" + (")" if cfg == "Omni" else f", parser=<strict {cfg} parser>)") + "['T']"
+            if api == "loads" else f"{DEC_LABEL[cfg]}.{api}({text!r})")
+    return f"{call} -> {got}; expected {describe(e)} [{kind}]"
 
 
 def replay(data):
